@@ -164,3 +164,15 @@ Print Assumptions C09_number_value.
 Theorem C09_normalisation_keeps_value : forall s, num_parts (normalize_number s) = num_parts s.
 Proof. exact normalize_parts. Qed.
 Print Assumptions C09_normalisation_keeps_value.
+
+(** ** the accessors of number literals agree with the spelling (Proofs/LexValues.v): a number
+    token is a float exactly when it is not an integer; an integer token's value is a run of decimal
+    digits, it denotes that integer (no fraction, no exponent), and Uint64 returns it when it fits
+    in 64 bits (0 otherwise, as the Go accessor does on overflow) *)
+Theorem C09_number_accessors : forall s t, In t (scan s) -> tkind t = KNumber ->
+  lit_is_float KNumber (tvalue t) = negb (lit_is_integer KNumber (tvalue t)) /\
+  (lit_is_integer KNumber (tvalue t) = true ->
+     num_parts (tvalue t) = (dec_value (tvalue t), 0%nat, 0%Z) /\
+     lit_uint64 KNumber (tvalue t) = Some (if (dec_value (tvalue t) <? two64)%N then dec_value (tvalue t) else 0%N)).
+Proof. exact number_accessors. Qed.
+Print Assumptions C09_number_accessors.
